@@ -64,6 +64,7 @@ func mkDecisions(salt int64) map[string]decision {
 		"A":   {h("A"), psA},
 		"A2":  {h("A"), psA2},
 		"B":   {h("B"), psB},
+		"A3":  {h("A3"), psA}, // another block id under A's part set id
 	}
 }
 
@@ -116,6 +117,14 @@ func run(id string, b behaviour, salt int64, vt consensus.VoteType) (string, []o
 			for name, dd := range decs {
 				if (dd.psid == nil && psid == nil) || (dd.psid != nil && psid != nil && psid.Equal(dd.psid)) {
 					got = name
+				}
+			}
+			// several decisions may share a part set id: the votes of the +2/3 list name the decision
+			if vl := vs.VoteListForOverTwoThirds(); vl != nil && vl.Len() > 0 {
+				if a := absOf(vl.Get(0)); a.Dec != "?" && a.Dec != "none" {
+					if d1, d2 := decs[a.Dec], decs[got]; (d1.psid == nil && d2.psid == nil) || (d1.psid != nil && d2.psid != nil && d1.psid.Equal(d2.psid)) {
+						got = a.Dec
+					}
 				}
 			}
 		}
